@@ -584,6 +584,10 @@ impl<'tcx> Cx<'tcx> {
                     }
                 }
             }
+            // `const P: [usize; 4] = [1, 3, 0, 2]` and the like: a structured value, so that indexing it is concrete
+            if let Some(v) = self.destructure_const(val, ty, 0) {
+                return Ok(v);
+            }
         }
         let shown = match if evaluable { cc.eval(self.tcx, self.tenv, c.span) } else { Err(rustc_middle::mir::interpret::ErrorHandled::TooGeneric(c.span)) } {
             Ok(val) => self.str_slice_const(val, ty).unwrap_or_else(|| format!("{}", mir::Const::Val(val, ty))),
@@ -635,6 +639,42 @@ impl<'tcx> Cx<'tcx> {
                 st.cells.truncate(ncells);
                 None
             }
+        }
+    }
+
+    fn destructure_const(&self, val: mir::ConstValue, ty: Ty<'tcx>, depth: usize) -> Option<V<'tcx>> {
+        if depth > 4 {
+            return None;
+        }
+        match ty.kind() {
+            ty::Bool | ty::Char | ty::Int(_) | ty::Uint(_) => {
+                let s = val.try_to_scalar_int()?;
+                Some(V::Int(s.to_bits(s.size())))
+            }
+            ty::Float(_) => {
+                let s = val.try_to_scalar_int()?;
+                let bits = s.to_bits(s.size());
+                match s.size().bytes() {
+                    4 => Some(V::Sym(cfloat((f32::from_bits(bits as u32) as f64).to_bits(), 32))),
+                    8 => Some(V::Sym(cfloat(bits as u64, 64))),
+                    _ => None,
+                }
+            }
+            ty::Array(..) | ty::Tuple(_) | ty::Adt(..) => {
+                if let ty::Adt(d, _) = ty.kind() {
+                    if !(d.is_struct() || d.is_enum()) {
+                        return None;
+                    }
+                }
+                let dc = self.tcx.try_destructure_mir_constant_for_user_output(val, ty)?;
+                let fs: Option<Vec<V<'tcx>>> = dc.fields.iter().map(|(v, t)| self.destructure_const(*v, *t, depth + 1)).collect();
+                let fs = fs?;
+                match (ty.kind(), dc.variant) {
+                    (ty::Adt(d, _), Some(vi)) if d.is_enum() => Some(V::Enum(vi.as_u32(), fs)),
+                    _ => Some(V::Agg(fs)),
+                }
+            }
+            _ => None,
         }
     }
 
